@@ -343,19 +343,27 @@ def configurations(cx):
             for damp in damps:
                 out.append(("NLDFSettingsVK(%s,%s)" % (tag, damp), lambda level=level, mult=mult, damp=damp: s.new(
                     ST, "NLDFSettingsVK", K(level), theta(level, "th"), K(mult), jparams(level, ["se", "se"]), K(damp))))
-    fl_dots = lst(pair(-1, -1), pair(-1, 0), pair(0, 1), pair(1, 1))
+    # Index/value discipline: list-valued settings never coincide with their own indices (no [0, 1, 2]) and all
+    # counts differ from each other and from the list lengths, so that a loop over the wrong count, a slice by
+    # the wrong count or an offset built from the wrong count changes the result.
+    fl_dots = lst(pair(-1, -1), pair(-1, 0), pair(0, 1), pair(1, 1), pair(0, 0), pair(1, 0))          # 6
+    ld_dots = lst(pair(-1, 0), pair(1, 1), pair(2, 3), pair(0, 3), pair(3, 3), pair(-1, 2), pair(2, 1))  # 7
     out.append(("FracLaplSettings(symbolic s)", lambda: s.new(
-        ST, "FracLaplSettings", lst(sym("s0"), sym("s1"), sym("s2")), num(3), num(2), fl_dots, num(2),
-        lst(pair(-1, 0), pair(1, 1)), num(2))))
-    pows = lst(num(0), num(1), num(2))
+        ST, "FracLaplSettings", lst(*[sym("s%d" % i) for i in range(5)]), num(3), num(2), fl_dots, num(4),
+        ld_dots, num(1))))
+    pows_perm = lambda: lst(num(2), num(0), num(1))  # noqa: E731
+    pows_sub = lambda: lst(num(1), num(2))  # noqa: E731
     for mode in ("smooth", "exact"):
         out.append(("SADMSettings(%s)" % mode, lambda mode=mode: s.new(ST, "SADMSettings", K(mode))))
-    out.append(("SDMXSettings", lambda: s.new(ST, "SDMXSettings", pows)))
-    out.append(("SDMXGSettings", lambda: s.new(ST, "SDMXGSettings", pows, num(2))))
-    out.append(("SDMX1Settings", lambda: s.new(ST, "SDMX1Settings", pows, num(2))))
-    out.append(("SDMXG1Settings", lambda: s.new(ST, "SDMXG1Settings", pows, num(2), num(1))))
-    sd = deg.Map({deg.Fraction(1): Tup([pows, lst(num(3), num(2), num(2), num(1))]),
-                  deg.Fraction(2): Tup([pows, lst(num(2), num(1), num(0), num(0))])})
+    for tag, pw in (("pows=[2,0,1]", pows_perm), ("pows=[1,2]", pows_sub)):
+        out.append(("SDMXSettings(%s)" % tag, lambda pw=pw: s.new(ST, "SDMXSettings", pw())))
+    out.append(("SDMXGSettings(pows=[2,0,1],ndt=2)", lambda: s.new(ST, "SDMXGSettings", pows_perm(), num(2))))
+    out.append(("SDMXGSettings(pows=[1,2],ndt=1)", lambda: s.new(ST, "SDMXGSettings", pows_sub(), num(1))))
+    out.append(("SDMX1Settings(pows=[2,0,1],n1=1)", lambda: s.new(ST, "SDMX1Settings", pows_perm(), num(1))))
+    out.append(("SDMX1Settings(pows=[1,2],n1=1)", lambda: s.new(ST, "SDMX1Settings", pows_sub(), num(1))))
+    out.append(("SDMXG1Settings(pows=[2,0,1],nd=2,n1=1)", lambda: s.new(ST, "SDMXG1Settings", pows_perm(), num(2), num(1))))
+    sd = deg.Map({deg.Fraction(1): Tup([lst(num(2), num(0), num(1)), lst(num(3), num(2), num(1), num(2))]),
+                  deg.Fraction(2): Tup([lst(num(1), num(2)), lst(num(2), num(1), num(0), num(1))])})
     out.append(("SDMXFullSettings", lambda: s.new(ST, "SDMXFullSettings", sd)))
     return out
 
@@ -513,16 +521,18 @@ def sdmx_plan_configs(cx):
     """plan class -> [(label, settings thunk)]: the settings classes each SDMX-like plan is built from.
     SDMXIntPlan documents (but does not enforce) ratio-1 settings only; it is analysed on one ratio."""
     s = cx.s
-    pows = lambda: lst(num(0), num(1), num(2))  # noqa: E731
-    full = lambda: deg.Map({deg.Fraction(1): Tup([pows(), lst(num(3), num(2), num(2), num(1))]),  # noqa: E731
-                            deg.Fraction(2): Tup([pows(), lst(num(2), num(1), num(1), num(2))])})
-    one = lambda: deg.Map({deg.Fraction(1): Tup([pows(), lst(num(3), num(2), num(2), num(1))])})  # noqa: E731
+    # pows are kept symbolic (distinct symbols), so a value can never coincide with an index; the term counts
+    # differ from each other and from len(pows)
+    P = lambda tag, n: lst(*[sym("%s%d" % (tag, i)) for i in range(n)])  # noqa: E731
+    full = lambda: deg.Map({deg.Fraction(1): Tup([P("p", 4), lst(num(4), num(2), num(3), num(1))]),  # noqa: E731
+                            deg.Fraction(2): Tup([P("q", 3), lst(num(2), num(1), num(3), num(2))])})
+    one = lambda: deg.Map({deg.Fraction(1): Tup([P("p", 4), lst(num(4), num(2), num(3), num(1))])})  # noqa: E731
     return {
         "SADMPlan": [("SADMSettings(smooth)", lambda: s.new(ST, "SADMSettings", K("smooth")))],
-        "SDMXPlan": [("SDMXSettings", lambda: s.new(ST, "SDMXSettings", pows())),
-                     ("SDMXGSettings", lambda: s.new(ST, "SDMXGSettings", pows(), num(2))),
-                     ("SDMX1Settings", lambda: s.new(ST, "SDMX1Settings", pows(), num(2))),
-                     ("SDMXG1Settings", lambda: s.new(ST, "SDMXG1Settings", pows(), num(2), num(1)))],
+        "SDMXPlan": [("SDMXSettings(symbolic pows)", lambda: s.new(ST, "SDMXSettings", P("p", 3))),
+                     ("SDMXGSettings(ndt=2 of 3)", lambda: s.new(ST, "SDMXGSettings", P("p", 3), num(2))),
+                     ("SDMX1Settings(n1=1 of 3)", lambda: s.new(ST, "SDMX1Settings", P("p", 3), num(1))),
+                     ("SDMXG1Settings(nd=3, n1=2 of 4)", lambda: s.new(ST, "SDMXG1Settings", P("p", 4), num(3), num(2)))],
         "SDMXFullPlan": [("SDMXFullSettings(ratios 1,2; kinds 0,d,1,1d)", lambda: s.new(ST, "SDMXFullSettings", full()))],
         "SDMXIntPlan": [("SDMXFullSettings(ratio 1)", lambda: s.new(ST, "SDMXFullSettings", one()))],
     }
